@@ -56,6 +56,13 @@ def universe(tier):
                         if tier == "quick" and n == 4 and sum(k in ("galt", "altg") for k in kinds) > 1:
                             continue
                         yield {"f": f, "kinds": kinds, "dated": dated, "alap": alap}
+                        if count_containers(f) >= 2:
+                            # the same forest with LOCAL ids that repeat under different parents (children are called by their position)
+                            yield {"f": f, "kinds": kinds, "dated": dated, "alap": alap, "ids": "pos"}
+
+
+def count_containers(forest):
+    return sum(1 + count_containers(t) for t in forest if t)
 
 
 def to_spec(it):
@@ -64,9 +71,9 @@ def to_spec(it):
 
     def mk(forest):
         out = []
-        for t in forest:
+        for pos, t in enumerate(forest):
             state["n"] += 1
-            tid = f"t{state['n']}"
+            tid = f"t{state['n']}" if it.get("ids") != "pos" else f"c{pos}"
             node = {"id": tid}
             if t:
                 if state["first_container"]:
